@@ -78,8 +78,8 @@ def prefix6(ip, bits, path_id=None):
     return (struct.pack('!L', path_id) if path_id is not None else b'') + bytes([bits]) + b
 
 
-def mp_reach(afi, safi, nh: bytes, nlri: bytes):
-    return attr(0x80, 14, struct.pack('!HB', afi, safi) + bytes([len(nh)]) + nh + b'\x00' + nlri)
+def mp_reach(afi, safi, nh: bytes, nlri: bytes, reserved: int = 0):
+    return attr(0x80, 14, struct.pack('!HB', afi, safi) + bytes([len(nh)]) + nh + bytes([reserved]) + nlri)
 
 
 def mp_unreach(afi, safi, nlri: bytes):
